@@ -13,6 +13,10 @@ if REPO not in sys.path:
 os.environ.setdefault("NUMBA_DISABLE_JIT", "1")
 os.environ.setdefault("OMP_NUM_THREADS", "1")
 os.environ.setdefault("OPENBLAS_NUM_THREADS", "1")
+# the installed run() writes result-*.dat / .npz into the working directory: keep those out of /verif
+import tempfile
+_CWD = tempfile.mkdtemp(prefix="verif-cwd-")
+os.chdir(_CWD)
 
 
 def main():
@@ -51,4 +55,6 @@ if __name__ == "__main__":
         traceback.print_exc()
         rc = 3
     sys.stdout.flush()
+    import shutil
+    shutil.rmtree(_CWD, ignore_errors=True)
     os._exit(rc if isinstance(rc, int) else 3)
